@@ -26,7 +26,8 @@ LEVEL_TEXT = ("For each (protocol, destination state, command, type, buffering f
               "quiescence. The finite grid 5 protocols x 3 destination states x 5 commands x all type numbers of the "
               "protocol (+2 outside) x 2 flags is swept completely in the thorough tier, seeded slice in quick; "
               "non-Message objects must be rejected as invalid messages. Also: batches held for a sleeping node across "
-              "write faults, traffic and a protocol switch; and 2-4 overlapping send calls with suspending / failing "
+              "write faults, traffic (incl. value requests and internal commands for the same node), a protocol switch and "
+              "a re-entry of the context; and 2-4 overlapping send calls with suspending / failing "
               "writes and cancelled senders (a call that returns normally has handed its line over or parked it).")
 LEVEL_NOTE = ("Trusted: 'message the codec accepts' is read as 'its encoding is a MUST-ACCEPT line of C02'; under 1.x a "
               "command held for a (restored) sleeping node cannot be observed leaving, because 1.x has no wake signal.")
